@@ -359,6 +359,23 @@ def check_config(worker, feats, std, derives, do_tests, tests, clean=False, trai
         elif p.returncode != 0:
             problems.append(("#![no_std] usage crate does not build", last_error(p.stderr)))
         shutil.rmtree(ndir, ignore_errors=True)
+    # 3b''. without `std`: a FINAL artifact (staticlib, panic = abort, its own panic handler, no allocator) that merely depends on
+    # derive_more with these features must link: the features must not drag `alloc` into every user (commit review of 0dc9fd2)
+    if not std:
+        adir = os.path.join(WORK, "c20a-%d" % worker)
+        shutil.rmtree(adir, ignore_errors=True)
+        os.makedirs(os.path.join(adir, "src"))
+        with open(os.path.join(adir, "Cargo.toml"), "w") as f:
+            f.write('[package]\nname = "c20art"\nversion = "0.0.0"\nedition = "2021"\n[lib]\ncrate-type = ["staticlib"]\n[workspace]\n[profile.dev]\npanic = "abort"\n[dependencies]\n'
+                    'derive_more = { path = "%s", default-features = false, features = [%s] }\n' % (REPO, ", ".join('"%s"' % x for x in feats)))
+        shutil.copy(os.path.join(REPO, "Cargo.lock"), os.path.join(adir, "Cargo.lock"))
+        with open(os.path.join(adir, "src", "lib.rs"), "w") as f:
+            f.write("#![no_std]\n#[allow(unused_imports)] use derive_more as _;\n#[panic_handler] fn ph(_: &core::panic::PanicInfo<'_>) -> ! { loop {} }\n#[no_mangle] pub extern \"C\" fn c20_entry() -> u32 { 7 }\n")
+        p = cargo(["build", "--offline", "-q"], adir, tdir)
+        steps += 1
+        if p.returncode != 0:
+            problems.append(("a #![no_std] final artifact without an allocator does not link: " + re.sub(r"`[^`]*`", "`..`", last_error(p.stderr))[:70], last_error(p.stderr)))
+        shutil.rmtree(adir, ignore_errors=True)
     # 3c. names usable as traits through `derive_more::with_trait` are the same as under `full`
     if trait_ref is not None:
         got = trait_probe(worker, feats, std, derives, tdir)
